@@ -194,6 +194,19 @@ func init() {
 			reseedRand(c.Seed, "c01.t3-origin:"+a[2])
 			must(e.issuer.AddOrigin(origin))
 		}
+		// the issuer is long-lived: requests it refuses (unknown origin, undecryptable, truncated, not a request at all) come in
+		// between the honest ones and must leave nothing behind (round 6)
+		if other := "unregistered." + origin; e.issuer.OriginIndexKey(other) == nil {
+			if bad, err := type3.NewRateLimitedClientFromSecret(unhx(a[5])).CreateTokenRequest(challenge, nonce, unhx(a[6]), e.issuer.TokenKeyID(), e.issuer.TokenKey(), other, e.issuer.NameKey()); err == nil {
+				bw := bad.Request().Marshal()
+				protect(func() string { e.issuer.Evaluate(bw); return "" })
+				flipped := append([]byte{}, bw...)
+				flipped[len(flipped)-100] ^= 1 // inside the encrypted part: HPKE open fails
+				protect(func() string { e.issuer.Evaluate(flipped); return "" })
+				protect(func() string { e.issuer.Evaluate(bw[:len(bw)/2]); return "" })
+				protect(func() string { e.issuer.Evaluate([]byte{0, 3, 1, 2, 3}); return "" })
+			}
+		}
 		reseedRand(c.Seed, "c01.t3:"+a[1])
 		st, err := type3.NewRateLimitedClientFromSecret(unhx(a[5])).CreateTokenRequest(challenge, nonce, unhx(a[6]), e.issuer.TokenKeyID(), e.issuer.TokenKey(), origin, e.issuer.NameKey())
 		if err != nil {
